@@ -61,6 +61,12 @@ chk("C14",
     "Coq proof (history invariant by induction; composition with the Worker clean-up theorem) + regenerated guards tie + vm_compute correspondence",
     "DESIGN.md §4 C14")
 
+chk("C16",
+    "Coq theorems over the model of post_add / state_on_node for all rule graphs, copy tables and request tables: the request table afterwards is the old one followed by exactly one request per autosync rule from the node into another group lacking a healthy copy; every copy row is unchanged except healthy, wanted copies of the file on the source node of an autoclean rule into the receiving group with the source outside that group, which only get wants := N (iff characterisation); self-loops fire in neither half; a group's state is Y iff some copy in it is healthy. Tie: guards translated, the three query filter expressions, the create call, self_loop and the single post_add call in each trigger (pull completion, import) checked each run (T1); the real post_add on sqlite over random/exhaustive rule graphs and copy states compared row by row with the model in Coq, plus a Python reference written from the documentation as monitor (T2).",
+    "Coq kernel+VM; translator fragment and textual query checks; peewee/sqlite query semantics by correspondence",
+    "Coq proof (list reasoning, iff characterisations) + regenerated guards tie + vm_compute table-diff correspondence",
+    "DESIGN.md §4 C16")
+
 ALL = [f"C{i:02d}" for i in range(1, 21)]
 NA_REASON = "check not yet built in this revision (planned: see DESIGN.md §7); nothing is claimed for it"
 
